@@ -6,8 +6,12 @@
 (* without overlap.  Records:                                              *)
 (*   reset  pat, cfgs (1-based sequence of builder records), dflt          *)
 (*   call   t, a, nd, c, h                                                 *)
-(*   ret    t, a, r, id, s, v, h      (id, s: what the handle shows)       *)
-(*   obs / end   exist, listed, files, shm   (quiescent observation)       *)
+(*   ret    t, a, r, id, s, v, h, f   (id, s: what the handle shows; f =    *)
+(*          number of libc calls of this call the shim made fail)          *)
+(*   obs / end   exist, listed, files, shm, tg, dirs, panics (quiescent    *)
+(*          observation; tg = sequence of the nodes carrying a service tag)*)
+(*   crash  t, nd     the process of thread t (node nd) was killed         *)
+(*   fault / note     informational (which libc call failed, ...)          *)
 (* The linearization point between call and ret is a silent step chosen by *)
 (* TLC; transient documented errors return without one (ServiceAbs).       *)
 (***************************************************************************)
@@ -30,9 +34,12 @@ Consume ==
     /\ LET e == Rec[l] IN
        CASE e.k = "reset" -> AReset(l)
          [] e.k = "call"  -> Call(e.t, e.a, e.nd, e.c, e.h)
-         [] e.k = "ret"   -> Ret(e.t, e.a, e.r, e.id, e.s, e.v, e.h)
+         [] e.k = "ret"   -> Ret(e.t, e.a, e.r, e.id, e.s, e.v, e.h, e.f)
          [] e.k \in {"obs", "end"} -> /\ e.panics = 0
-                                      /\ Quiescent(e.exist, e.listed, e.files, e.shm)
+                                      /\ Quiescent(e.exist, e.listed, e.files, e.shm,
+                                                   {e.tg[i] : i \in DOMAIN e.tg}, e.dirs, e.k = "end")
+         [] e.k = "crash" -> Crash(e.t, e.nd)
+         [] e.k \in {"fault", "note"} -> UNCHANGED avars
          [] OTHER -> FALSE
 
 \* Linearization points can always be postponed to immediately before the next recorded return
@@ -40,7 +47,10 @@ Consume ==
 Silent ==
     /\ l <= NRec
     /\ Rec[l].k = "ret"
-    /\ \E t \in Threads : Lin(t)
+    /\ \/ \E t \in Threads : Lin(t)
+       \/ \E t \in Threads : LinCrashed(t)
+       \/ Reap
+       \/ Rec[l].f > 0 /\ Withdraw(Rec[l].t)
     /\ UNCHANGED l
 
 TraceNext == Silent \/ Consume
